@@ -1772,6 +1772,9 @@ pub struct GraphEngine {
     index_locks: Vec<RwLock<()>>,
     /// Striped locks serializing read-modify-write updates of a node's edge lists.
     adjacency_locks: Vec<RwLock<()>>,
+    /// Striped per-node locks: edge creation holds its endpoints shared, node deletion holds
+    /// the node exclusively, so an edge is never attached to a node that is being deleted.
+    node_locks: Vec<RwLock<()>>,
     /// Whether the label index has been initialized (for lazy auto-creation).
     label_index_initialized: AtomicBool,
     /// Whether the edge type index has been initialized (for lazy auto-creation).
@@ -1826,6 +1829,7 @@ impl GraphEngine {
             geo_indexes: RwLock::new(HashMap::new()),
             index_locks: create_index_locks(lock_count),
             adjacency_locks: create_index_locks(lock_count),
+            node_locks: create_index_locks(lock_count),
             label_index_initialized: AtomicBool::new(false),
             edge_type_index_initialized: AtomicBool::new(false),
             constraints: RwLock::new(HashMap::new()),
@@ -1897,6 +1901,7 @@ impl GraphEngine {
             geo_indexes: RwLock::new(HashMap::new()),
             index_locks: create_index_locks(config.index_lock_count),
             adjacency_locks: create_index_locks(config.index_lock_count),
+            node_locks: create_index_locks(config.index_lock_count),
             label_index_initialized: AtomicBool::new(label_index_exists),
             edge_type_index_initialized: AtomicBool::new(edge_type_index_exists),
             constraints: RwLock::new(constraints),
@@ -1948,6 +1953,7 @@ impl GraphEngine {
             geo_indexes: RwLock::new(HashMap::new()),
             index_locks: create_index_locks(config.index_lock_count),
             adjacency_locks: create_index_locks(config.index_lock_count),
+            node_locks: create_index_locks(config.index_lock_count),
             label_index_initialized: AtomicBool::new(label_index_exists),
             edge_type_index_initialized: AtomicBool::new(edge_type_index_exists),
             constraints: RwLock::new(constraints),
@@ -3308,6 +3314,15 @@ impl GraphEngine {
 
         // Ensure edge type index exists (lazy init on first edge creation)
         self.ensure_edge_type_index();
+
+        // Keep both endpoints alive until the edge is fully attached (delete_node takes the
+        // node's stripe exclusively). Stripes are taken in index order.
+        let (first, second) = {
+            let (a, b) = (self.lock_index(from), self.lock_index(to));
+            (a.min(b), a.max(b))
+        };
+        let _first_endpoint_guard = self.node_locks[first].read();
+        let _second_endpoint_guard = (second != first).then(|| self.node_locks[second].read());
 
         // Verify both nodes exist
         if !self.node_exists(from) {
@@ -6477,6 +6492,9 @@ impl GraphEngine {
     /// Returns `NodeNotFound` if the node doesn't exist, or `PartialDeletionError`
     /// if some connected edges fail to delete.
     pub fn delete_node(&self, id: u64) -> Result<()> {
+        // No edge may be attached to this node while it is being removed
+        let _node_guard = self.node_locks[self.lock_index(id)].write();
+
         // Get node for index cleanup before deletion
         let node = self.get_node(id)?;
 
